@@ -420,7 +420,8 @@ fn c04_f64(rng: &mut Rng, out: &mut Out) {
     // f64 twin: magnitude pivoting inside the band with negative / tiny / zero diagonals; padding value must not matter
     for n in 1..up(7, 11) { for m1 in 0..n { for m2 in 0..n { for rep in 0..7 { case();
         let tiny = if rep == 6 { f64::from_bits(1u64 << 44) } else { 1.0 };      // rep 6: every entry subnormal (2^-1030 times a small integer)
-        let mut b = Banded::<f64>::new(n, m1, m2, 7.5);
+        let pad = [7.5, f64::NAN, f64::INFINITY, 7.5, -1.0e300, 7.5, 7.5][rep];      // storage slots outside the matrix hold arbitrary values, non-finite ones included
+        let mut b = Banded::<f64>::new(n, m1, m2, pad);
         let mut d = vec![vec![0.0f64; n]; n];
         for i in 0..n { for j in 0..n { if j <= i + m2 && i <= j + m1 {
             let mut v = rng.int(-4, 4) as f64;
@@ -441,7 +442,10 @@ fn c04_f64(rng: &mut Rng, out: &mut Out) {
         if det_ref(&dq).is_zero() { continue; }
         let xs: Vec<f64> = (0..n).map(|_| rng.int(-4, 4) as f64).collect();
         let rhs: Vec<f64> = (0..n).map(|i| (0..n).map(|j| d[i][j] * xs[j]).sum()).collect();
-        let desc = format!("n={} m1={} m2={} dense={:?} b={:?}", n, m1, m2, d, rhs);
+        let desc = format!("n={} m1={} m2={} padding={} dense={:?} b={:?}", n, m1, m2, pad, d, rhs);
+        match quiet(|| &b * &Vector::create(xs.clone())) {
+            Ok(p) => { let e = (0..n).map(|i| (p[i] - rhs[i]).abs()).fold(0.0f64, nmax); if !(e <= 1e-9 * tiny * (1.0 + rhs.iter().fold(0.0f64, |s, v| s.max((v / tiny).abs())))) { report(out, "C04 f64 banded product agrees with the dense product whatever the padding holds", desc.clone(), format!("{:?}", (0..n).map(|i| p[i]).collect::<Vec<_>>()), format!("{:?}", rhs)); } }
+            Err(e) => report(out, "C04 f64 banded product panicked", desc.clone(), e, "a product".into()) }
         match quiet(|| b.solve(&Vector::create(rhs.clone()))) {
             Ok(x) => { let res = (0..n).map(|i| ((0..n).map(|j| d[i][j] * x[j]).sum::<f64>() - rhs[i]).abs()).fold(0.0f64, nmax);
                 let sc = tiny * (1.0 + d.iter().flatten().fold(0.0f64, |s, v| s.max((v / tiny).abs())) * (0..n).map(|i| x[i].abs()).fold(0.0f64, nmax) * n as f64);
@@ -564,6 +568,24 @@ fn sparse_views_agree(s: &Sparse<Q>, d: &M, ctx: &str, out: &mut Out) {
     } }
     if r * c > 0 { match quiet(|| s.to_dense()) { Ok(td) => if from_matrix(&td) != *d { report(out, "C06 to_dense agrees with the reference matrix", ctx.to_string(), mq(&from_matrix(&td)), mq(d)); }, Err(p) => report(out, "C06 to_dense panicked", ctx.to_string(), p, mq(d)) } }
     if let Ok(tr) = quiet(|| s.to_triplets()) { let dd = dense_of(&tr, r, c); if dd != *d || tr.len() != s.nonzero { report(out, "C06 to_triplets agrees with the reference matrix", ctx.to_string(), format!("{:?}", tr.iter().map(|t| (t.0, t.1)).collect::<Vec<_>>()), mq(d)); } }
+}
+fn c06_raw(rng: &mut Rng, out: &mut Out) {
+    for _ in 0..120 { case();
+        let (r, c) = (1 + rng.below(up(5, 8) as u64) as usize, 1 + rng.below(up(5, 8) as u64) as usize);
+        let mut d: M = vec![vec![Q::int(0); c]; r];
+        let (mut val, mut ri, mut cs) = (vec![], vec![], vec![0usize]);
+        for j in 0..c { let mut rows: Vec<usize> = (0..r).filter(|_| rng.below(2) == 0).collect();
+            for k in (1..rows.len()).rev() { let t = rng.below(k as u64 + 1) as usize; rows.swap(k, t); }      // the rows of a column in any order
+            for i in rows { let v = if rng.below(3) == 0 { Q::int(2) } else { rng.q_nz() }; d[i][j] = v; val.push(v); ri.push(i); }      // repeated values are frequent
+            cs.push(val.len()); }
+        let ctx0 = format!("from_vecs({}, {}, val={}, row_index={:?}, col_start={:?})", r, c, qs(&val), ri, cs);
+        let mut s = match quiet(|| Sparse::<Q>::from_vecs(r, c, val.clone(), ri.clone(), cs.clone())) { Ok(s) => s, Err(e) => { report(out, "C06 from_vecs panicked on well-formed arrays", ctx0, e, "a matrix".into()); continue; } };
+        sparse_views_agree(&s, &d, &ctx0, out);
+        let mut ctx = ctx0;
+        for _ in 0..3 { let (i, j, v) = (rng.below(r as u64) as usize, rng.below(c as u64) as usize, rng.q_nz());
+            if quiet(std::panic::AssertUnwindSafe(|| s.insert(i, j, v))).is_err() { report(out, "C06 insert panicked on an in-range position", ctx.clone(), format!("insert({},{},{:?})", i, j, v), "stored".into()); break; }
+            d[i][j] = v; ctx = format!("{}; insert({},{},{})", ctx, i, j, v.n); sparse_views_agree(&s, &d, &ctx, out); }
+    }
 }
 fn c06(rng: &mut Rng, out: &mut Out) {
     for _it in 0..250 { case();
@@ -973,6 +995,12 @@ fn c11(rng: &mut Rng, out: &mut Out) {
         if ev(&dif_r) != ev(&a) - ev(&b) { report(out, "C11 (p-q)(x) == p(x)-q(x)", ctx.clone(), qs(&dif_r), "termwise difference".into()); }
         let pr = coeffs_of(&(&pa * &pb)); if ev(&pr) != ev(&a) * ev(&b) || (!a.is_empty() && !b.is_empty() && pr.len() != la + lb - 1) { report(out, "C11 (p*q)(x) == p(x)*q(x), degrees add", ctx.clone(), qs(&pr), "convolution".into()); }
         if coeffs_of(&(pa.clone() * pb.clone())) != pr { report(out, "C11 consuming * equals borrowed *", ctx.clone(), "differs".into(), qs(&pr)); }
+        if !a.is_empty() { // squaring: the same object on both sides, and an equal copy
+            let mut sq = vec![Q::int(0); 2 * la - 1]; for i in 0..la { for j in 0..la { sq[i + j] = sq[i + j] + a[i] * a[j]; } }
+            for (form, got) in [("&p * &p", coeffs_of(&(&pa * &pa))), ("&p * &copy", coeffs_of(&(&pa * &Polynomial::new(a.clone())))), ("p * copy", coeffs_of(&(pa.clone() * Polynomial::new(a.clone()))))] {
+                if got != sq { report(out, "C11 a polynomial times itself is the convolution of its coefficients with themselves", format!("p={} [{}]", qs(&a), form), qs(&got), qs(&sq)); } }
+            let (sm, df) = (coeffs_of(&(&pa + &pa)), coeffs_of(&(&pa - &pa)));
+            if sm != a.iter().map(|c| *c + *c).collect::<Vec<_>>() || df.len() != la || !df.iter().all(|c| c.is_zero()) { report(out, "C11 p + p == 2p and p - p == 0 termwise (same object on both sides)", format!("p={}", qs(&a)), format!("{} / {}", qs(&sm), qs(&df)), "2p / zeros".into()); } }
         if !a.is_empty() {
             for n in 0..=la { // orders 0 ..= degree+1
                 let dn = match quiet(|| pa.derivative_n(n)) { Ok(d) => coeffs_of(&d), Err(e) => { report(out, "C11 derivative_n panicked for an order <= degree+1", format!("p={} n={}", qs(&a), n), e, "a polynomial".into()); break; } };
@@ -1043,6 +1071,16 @@ fn c12(rng: &mut Rng, out: &mut Out) {
                 Err(e) => report(out, "C12 polydiv never panics", format!("dividend: {}, divisor {}", what, qs(&w)), e, "Ok".into()) }
         }
     }
+    for z in [vec![], vec![Q::int(0)], vec![Q::int(0), Q::int(0), Q::int(0)]] { case();
+        let (u, v) = (Polynomial::new(z.clone()), Polynomial::new(z.clone()));
+        if !matches!(quiet(|| u.polydiv(&v)), Ok(Err(_))) { report(out, "C12 division by the zero polynomial is an error (also when the dividend is the same zero polynomial)", format!("u = v = {}", qs(&z)), "not Err".into(), "Err".into()); }
+        if !matches!(quiet(|| u.polydiv(&u)), Ok(Err(_))) { report(out, "C12 division by the zero polynomial is an error (also when the dividend is the same zero polynomial)", format!("u.polydiv(&u), u = {}", qs(&z)), "not Err".into(), "Err".into()); } }
+    for it in 0..40 { case();   // a nonzero polynomial divided by itself (the same object, and an equal one): quotient 1, remainder 0
+        let lu = 1 + rng.below(6) as usize; let mut u = pq(rng, lu); if u[lu - 1].is_zero() { u[lu - 1] = Q::int(3); }
+        let pu = Polynomial::new(u.clone());
+        let r = if it % 2 == 0 { quiet(|| pu.polydiv(&pu)) } else { quiet(|| pu.polydiv(&Polynomial::new(u.clone()))) };
+        match r { Ok(Ok((q, r))) => if coeffs_of(&q) != vec![Q::int(1)] || !coeffs_of(&r).iter().all(|c| c.is_zero()) { report(out, "C12 p / p == 1 remainder 0", format!("p={}", qs(&u)), format!("q={} r={}", qs(&coeffs_of(&q)), qs(&coeffs_of(&r))), "1, 0".into()); },
+            _ => report(out, "C12 division by a nonzero divisor succeeds", format!("p / p, p={}", qs(&u)), "failed".into(), "Ok".into()) } }
     if !matches!(quiet(|| Polynomial::new(vec![Q::int(1)]).polydiv(&Polynomial::new(vec![Q::int(0), Q::int(0)]))), Ok(Err(_))) { report(out, "C12 division by the zero polynomial is an error", "v=[0,0]".into(), "not Err".into(), "Err".into()); }
 }
 
@@ -1175,6 +1213,8 @@ fn c15(rng: &mut Rng, out: &mut Out) {
         if !(va.norm_inf() <= va.norm_2() + 1e-12 && va.norm_2() <= va.norm_1() + 1e-12) || va.norm_inf() < 0.0 { report(out, "C15 0 <= inf-norm <= 2-norm <= 1-norm", ctx.clone(), format!("{} {} {}", va.norm_inf(), va.norm_2(), va.norm_1()), "ordered".into()); }
         if (-va.clone()).norm_inf() != va.norm_inf() { report(out, "C15 ||-u|| == ||u||", ctx.clone(), format!("{}", (-va.clone()).norm_inf()), format!("{}", va.norm_inf())); }
         let d: f64 = a.iter().zip(&b).map(|(x, y)| x * y).sum(); if va.dot(&vb) != d { report(out, "C15 dot", ctx.clone(), format!("{}", va.dot(&vb)), format!("{}", d)); }
+        { let dd: f64 = a.iter().map(|x| x * x).sum(); let (g1, g2) = (va.dot(&va), va.dot_f64(&va));
+          if g1 != dd || g2.to_bits() != g1.to_bits() { report(out, "C15 the dot product of a vector with itself (same object on both sides, sequential and threaded) is the sum of squares", ctx.clone(), format!("dot={} dot_f64={}", g1, g2), format!("{}", dd)); } }
         let s = &va + &vb; if (0..n).any(|i| s[i] != a[i] + b[i]) { report(out, "C15 elementwise +", ctx.clone(), format!("{:?}", s), "sum".into()); }
         // range sums / products over all index ranges (exact integer data), including one-index ranges and length-1 vectors
         {
@@ -1269,6 +1309,7 @@ fn c16(_rng: &mut Rng, out: &mut Out) {
     for n in (0..=200usize).chain([1000, 4099, 0, 1, 2, 3, 5, 7, 15, 16, 17, 0, 31, 4099, 0]) { case();
         let a: Vec<f64> = (0..n).map(|i| ((i * 7 + 3) % 11) as f64 - 5.0).collect(); let b: Vec<f64> = (0..n).map(|i| ((i * 5 + 1) % 13) as f64 - 6.0).collect();
         let (va, vb) = (Vector::create(a), Vector::create(b));
+        if let Ok((ps, ss)) = quiet(|| (va.dot_f64(&va), va.dot(&va))) { if ps.to_bits() != ss.to_bits() { report(out, "C16 threaded dot of a vector with itself == sequential dot (exact integer data)", format!("len={}", n), format!("{}", ps), format!("{}", ss)); } }
         match quiet(|| (va.dot_f64(&vb), va.dot_f64(&vb))) {
             Ok((p, p2)) => { let s = va.dot(&vb);
                 if p.to_bits() != s.to_bits() || p.to_bits() != p2.to_bits() { report(out, "C16 threaded dot == sequential dot (exact integer data), repeatable", format!("len={} workers={}", n, std::thread::available_parallelism().map(|x| x.get()).unwrap_or(0)), format!("{} / {}", p, p2), format!("{}", s)); } }
@@ -1345,6 +1386,27 @@ fn c17(_rng: &mut Rng, out: &mut Out) {
           let rn = if which == 0 { near.solve(&f2) } else { near.solve_jacobian(&f2, &j2) };
           if rn.is_err() { report(out, "C17 a guess very close to the root converges", format!("(x^2-2, y^2-3) from root + 1e-5, tol={:e} {}", tl, if which == 0 { "solve" } else { "solve_jacobian" }), "Err".into(), "Ok".into()); }
       } } }
+    { // a Jacobian whose columns repeat a magnitude above and below the diagonal (pivot search with ties), and the iterate carried by Err
+      let f3 = |x: Vec64| Vec64::create(vec![10.0 * x[0] + x[0] * x[0] + 3.0 * x[1] - 14.0, 3.0 * x[1] + x[2] + 0.5 * x[2] * x[2] - 4.5, x[0] + 4.0 * x[2] + x[2] * x[2] * x[2] - 6.0]);
+      let j3 = |x: Vec64| { let mut m = Mat64::new(3, 3, 0.0); m[(0, 0)] = 10.0 + 2.0 * x[0]; m[(0, 1)] = 3.0; m[(1, 1)] = 3.0; m[(1, 2)] = 1.0 + x[2]; m[(2, 0)] = 1.0; m[(2, 2)] = 4.0 + 3.0 * x[2] * x[2]; m };
+      for which in 0..2 { case();
+          let nw = Newton::<Vec64>::new(Vec64::create(vec![1.1, 0.9, 1.1]));
+          match if which == 0 { nw.solve(&f3) } else { nw.solve_jacobian(&f3, &j3) } {
+              Ok(x) => if (0..3).any(|i| !((x[i] - 1.0).abs() <= 1e-6)) { report(out, "C17 system success means a root", format!("3x3 system with repeated magnitudes in a Jacobian column, {}", if which == 0 { "solve" } else { "solve_jacobian" }), format!("({}, {}, {})", x[0], x[1], x[2]), "(1, 1, 1)".into()); },
+              Err(x) => report(out, "C17 system solve converges from inside the basin", format!("3x3 system with repeated magnitudes in a Jacobian column, {}", if which == 0 { "solve" } else { "solve_jacobian" }), format!("Err(({}, {}, {}))", x[0], x[1], x[2]), "Ok((1, 1, 1))".into()) } }
+      // failure carries the LAST iterate: k steps at once equal k one-step runs restarted from the carried iterate
+      let l3 = |x: Vec64| Vec64::create(vec![2.0 * x[0] + x[1] - 3.0, x[0] + 3.0 * x[1] - 4.0, x[2] - 5.0]);
+      let lj = |_x: Vec64| { let mut m = Mat64::new(3, 3, 0.0); m[(0, 0)] = 2.0; m[(0, 1)] = 1.0; m[(1, 0)] = 1.0; m[(1, 1)] = 3.0; m[(2, 2)] = 1.0; m };
+      let mut one = Newton::<Vec64>::new(Vec64::create(vec![0.0, 0.0, 0.0])); one.iterations(1);
+      match one.solve_jacobian(&l3, &lj) { Err(x) => if (x[0] - 1.0).abs() > 1e-9 || (x[1] - 1.0).abs() > 1e-9 || (x[2] - 5.0).abs() > 1e-9 { report(out, "C17 failure carries the last iterate (one exact Newton step on a linear system lands on its solution)", "solve_jacobian, linear 3x3, max_iter=1".into(), format!("Err(({}, {}, {}))", x[0], x[1], x[2]), "Err((1, 1, 5))".into()); },
+          Ok(x) => if (x[0] - 1.0).abs() > 1e-9 { report(out, "C17 system success means a root", "solve_jacobian, linear 3x3, max_iter=1".into(), format!("Ok(({}, ..))", x[0]), "(1, 1, 5)".into()); } }
+      for which in 0..2 { case();
+          let run = |g: Vec<f64>, k: usize| { let mut nw = Newton::<Vec64>::new(Vec64::create(g)); nw.iterations(k); if which == 0 { nw.solve(&f3) } else { nw.solve_jacobian(&f3, &j3) } };
+          let at_once = run(vec![3.0, -2.0, 2.5], 2);
+          let step1 = run(vec![3.0, -2.0, 2.5], 1);
+          if let (Err(a), Err(s1)) = (&at_once, &step1) { if let Err(s2) = run((0..3).map(|i| s1[i]).collect(), 1) {
+              if (0..3).any(|i| a[i].to_bits() != s2[i].to_bits()) { report(out, "C17 failure carries the last iterate (two steps at once equal two one-step runs restarted from the carried iterate)", format!("3x3 system from (3, -2, 2.5), {}", if which == 0 { "solve" } else { "solve_jacobian" }), format!("({}, {}, {})", a[0], a[1], a[2]), format!("({}, {}, {})", s2[0], s2[1], s2[2])); } } } }
+    }
     // systems: Ok exactly when some evaluated iterate had residual <= tol within the budget
     let lin = |x: Vec64| Vec64::create(vec![2.0 * x[0] + x[1] - 3.0, x[0] + 3.0 * x[1] - 4.0, x[2] - 5.0]);
     let linj = |_x: Vec64| { let mut m = Mat64::new(3, 3, 0.0); m[(0, 0)] = 2.0; m[(0, 1)] = 1.0; m[(1, 0)] = 1.0; m[(1, 1)] = 3.0; m[(2, 2)] = 1.0; m };
@@ -1641,7 +1703,7 @@ fn main() {
         if big && matches!(pid.as_str(), "C13" | "C14" | "C16" | "C17") { continue; }      // no size parameter in these oracles
         match pid.as_str() {
         "C01" => { c01(rng, out); if !big { c01_extreme(rng, out) } }, "C02" => c02(rng, out), "C03" => { c03(rng, out); if !big { c03_empty(out) } }, "C04" => { c04(rng, out); c04_f64(rng, out) },
-        "C05" => { c05(rng, out); c05_f64(rng, out); if !big { c05_ctor(out); c05_assemble(rng, out) } }, "C06" => c06(rng, out), "C07" => { c07(rng, out); c07_insert(rng, out); c07_sizes(rng, out) }, "C08" => c08(rng, out),
+        "C05" => { c05(rng, out); c05_f64(rng, out); if !big { c05_ctor(out); c05_assemble(rng, out) } }, "C06" => { c06(rng, out); c06_raw(rng, out) }, "C07" => { c07(rng, out); c07_insert(rng, out); c07_sizes(rng, out) }, "C08" => c08(rng, out),
         "C09" => c09(rng, out), "C10" => c10(rng, out), "C11" => c11(rng, out), "C12" => c12(rng, out),
         "C13" => c13(rng, out), "C14" => c14(rng, out), "C15" => c15(rng, out), "C16" => c16(rng, out),
         "C17" => c17(rng, out), "C18" => c18(rng, out), "C19" => { c19(rng, out); c19_file(rng, out) }, "C20" => c20(rng, out),
